@@ -13,7 +13,7 @@
    plus the Corr-level assumption (sampled, see props/C10.json) that a real decoder fails on
    bytes that were not produced by its own encoder. *)
 From Coq Require Import List ZArith Bool String.
-From IB Require Import Util.J IO.Compression.
+From IB Require Import Util.J IO.Compression IO.CompressionPayload Corr.C10Payload.
 Import ListNotations.
 Open Scope Z_scope.
 
@@ -366,8 +366,206 @@ Definition check_proc (input output : J) : verdict :=
   | _, _ => malformed
   end.
 
+(* ---------- kinds "big" / "rewrite": payloads given by generator parameters ----------
+   gen = [mode, n, klen, seed, k0len] (Corr/C10Payload.v).  Expected record count, digest, text
+   length and first 16 text bytes all come from the Coq side. *)
+Record gen := { g_mode : Z; g_seed : Z; g_p : pgen }.
+Definition dec_gen (j : J) : option gen :=
+  match j with
+  | JL [JI mode; JI n; JI klen; JI seed; JI k0len] =>
+      if (0 <=? mode) && (mode <=? 2) && (0 <=? n) && (0 <=? klen) && (0 <=? seed) && (0 <=? k0len)
+      then Some {| g_mode := mode; g_seed := seed;
+                   g_p := {| pg_n := Z.to_N n; pg_klen := Z.to_N klen; pg_k0len := Z.to_N k0len |} |}
+      else None
+  | _ => None
+  end.
+(* what the model needs to know about a payload, computed once per case *)
+Record pinfo := { pi_n : Z; pi_digest : Z; pi_jlen : Z; pi_clen : Z; pi_jhead : bytes; pi_chead : bytes }.
+Definition pinfo_of (g : gen) : pinfo :=
+  {| pi_n := Z.of_N (pg_n (g_p g));
+     pi_digest := pl_digest (g_mode g) (Uint63.of_Z (g_seed g)) (pg_n (g_p g)) (pg_klen (g_p g))
+                            (pg_k0len (g_p g));
+     pi_jlen := Z.of_N (pl_text_len 14 (g_p g));
+     pi_clen := Z.of_N (pl_text_len 2 (g_p g));
+     pi_jhead := pl_head false (g_mode g) (g_seed g) (g_p g);
+     pi_chead := pl_head true (g_mode g) (g_seed g) (g_p g) |}.
+
+Inductive wformat := FJsonl | FCsv | FParquet.
+Definition writer_format (w : writer_ep) : wformat :=
+  match w with
+  | WCsvVec | WCsv | WCsvPar | WPcCsv | WPcCsvPar => FCsv
+  | WParquetVec => FParquet
+  | _ => FJsonl
+  end.
+(* text length / head of the payload in the writer's format (parquet: not modelled) *)
+Definition pi_len (f : wformat) (pi : pinfo) : option Z :=
+  match f with FJsonl => Some (pi_jlen pi) | FCsv => Some (pi_clen pi) | FParquet => None end.
+Definition pi_head (f : wformat) (pi : pinfo) : option bytes :=
+  match f with FJsonl => Some (pi_jhead pi) | FCsv => Some (pi_chead pi) | FParquet => None end.
+
+(* read outcome with a digest *)
+Inductive doutc := DOk (cnt dg : Z) | DErr | DPanic.
+Definition dec_doutc (j : J) : option doutc :=
+  match j with
+  | JL [t; JI c; JI d] => if jtag_is "ok" t then Some (DOk c d) else None
+  | JL [t] => if jtag_is "err" t then Some DErr else if jtag_is "panic" t then Some DPanic else None
+  | _ => None
+  end.
+Definition d_ok (o : doutc) (pi : pinfo) : bool :=
+  match o with DOk c d => (c =? pi_n pi) && (d =? pi_digest pi) | _ => false end.
+Definition d_fail (r : reader_ep) (o : doutc) : bool :=
+  match o, r with
+  | DErr, _ => true
+  | DPanic, (RJsonlStreamPar | RCsvStreamPar) => true
+  | _, _ => false
+  end.
+
+(* one (writer, reader, written name, read name) entry of a "big" case *)
+Definition check_big_entry (reg : list centry) (pi : pinfo) (entry out : J) : verdict :=
+  match entry with
+  | JL [JI wz; JI rz; jwname; jrname; jshards] =>
+      match writer_of wz, reader_of rz, jbytes jwname, jbytes jrname, shards_ok jshards with
+      | Some w, Some r, Some wname, Some rname, true =>
+          match out with
+          | JL [_; JI osig; JI slen; JI plen; JB osame; jhs; jhp; jro] =>
+              match jbytes jhs, jbytes jhp, dec_doutc jro with
+              | Some hs, Some hp, Some ro =>
+                  let f := writer_format w in
+                  (* --- model: the text is the payload's; run write / read on its head --- *)
+                  let b := match pi_head f pi with Some h => h | None => hp end in
+                  let text_ok :=
+                    match pi_head f pi, pi_len f pi with
+                    | Some h, Some l => zlist_eqb hp h && (plen =? l)
+                    | _, _ => true
+                    end in
+                  let stored_m := write_in (toy_enc reg) reg w wname b in
+                  let wc := ep_writer_codec_in reg w wname in
+                  let read_m := read_in (toy_dec reg) reg r rname stored_m in
+                  let agree :=
+                    text_ok
+                    && (osig =? ref_sig stored_m)
+                    && Bool.eqb osame (zlist_eqb stored_m b)
+                    && (match wc with
+                        | None => zlist_eqb hs b && (slen =? plen)
+                        | Some c => starts_with (sig_of reg c) hs
+                        end)
+                    && (match read_m with
+                        | Some x => zlist_eqb x b && d_ok ro pi
+                        | None => d_fail r ro
+                        end) in
+                  (* --- property instance on the observed outcome, independent reference --- *)
+                  let ew := ref_ext wname in
+                  let er := ref_ext rname in
+                  let prop :=
+                    if writer_detects w then
+                      (if ew =? -1 then osame && (slen =? plen)
+                       else (osig =? ew) && negb osame)
+                      && (if er =? -1 then
+                            (* neutral name: compressed content is recognised by its signature;
+                               plain content is read verbatim unless it begins with one *)
+                            if (ew =? -1) && negb (ref_sig hp =? -1) then true else d_ok ro pi
+                          else if er =? ew then d_ok ro pi
+                          else true)
+                    else d_ok ro pi in
+                  ok_verdict agree prop
+              | _, _, _ => malformed
+              end
+          | JL [t] => if jtag_is "werr" t || jtag_is "panic" t then ok_verdict false false
+                      else malformed
+          | _ => malformed
+          end
+      | _, _, _, _, _ => malformed
+      end
+  | _ => malformed
+  end.
+
+Fixpoint check_big_entries (reg : list centry) (pi : pinfo) (es os : list J) : verdict :=
+  match es, os with
+  | [], [] => ok_verdict true true
+  | e :: es', o :: os' => vand (check_big_entry reg pi e o) (check_big_entries reg pi es' os')
+  | _, _ => malformed
+  end.
+
+Definition check_big (input output : J) : verdict :=
+  match input, output with
+  | JL [jg; JL es], JL [_; JL os] =>
+      match dec_gen jg with
+      | Some g => let pi := pinfo_of g in check_big_entries (reg_view (reg_run no_ops)) pi es os
+      | None => malformed
+      end
+  | JL [_; JL _], JL [t] => if jtag_is "panic" t then ok_verdict false false else malformed
+  | _, _ => malformed
+  end.
+
+(* "rewrite": payload A then payload B written to the same name of one directory / object store
+   in  = [w, r, name, genA, genB, shards]
+   out = [tag, sig(stored after B), len after A, len after B, len of B written to a fresh store,
+          stored after B == fresh, first 16 bytes after B, read outcome] *)
+Definition oeqb (a b : option bytes) : bool :=
+  match a, b with
+  | Some x, Some y => zlist_eqb x y
+  | None, None => true
+  | _, _ => false
+  end.
+Definition check_rewrite (input output : J) : verdict :=
+  let reg := reg_view (reg_run no_ops) in
+  match input with
+  | JL [JI wz; JI rz; jname; jga; jgb; jshards] =>
+      match writer_of wz, reader_of rz, jbytes jname, dec_gen jga, dec_gen jgb, shards_ok jshards with
+      | Some w, Some r, Some name, Some ga, Some gb, true =>
+          match output with
+          | JL [_; JI osig; JI l1; JI l2; JI lf; JB same; jh2; jro] =>
+              match jbytes jh2, dec_doutc jro with
+              | Some h2, Some ro =>
+                  let f := writer_format w in
+                  let pa := pinfo_of ga in
+                  let pb := pinfo_of gb in
+                  (* parquet: no text model; two distinct placeholders *)
+                  let ba := match pi_head f pa with Some h => h | None => [0] end in
+                  let bb := match pi_head f pb with Some h => h | None => [1] end in
+                  let st1 := store_write (toy_enc reg) reg [] w name ba in
+                  let st2 := store_write (toy_enc reg) reg st1 w name bb in
+                  let stf := store_write (toy_enc reg) reg [] w name bb in
+                  let wc := ep_writer_codec_in reg w name in
+                  let stored_m := match store_get st2 name with Some s => s | None => [] end in
+                  let agree :=
+                    Bool.eqb same (oeqb (store_get st2 name) (store_get stf name))
+                    && (l2 =? lf)
+                    && (match f with FParquet => true | _ => osig =? ref_sig stored_m end)
+                    && (match wc, f with
+                        | _, FParquet => true
+                        | None, _ =>
+                            zlist_eqb h2 bb
+                            && (match pi_len f pa, pi_len f pb with
+                                | Some la, Some lb => (l1 =? la) && (l2 =? lb)
+                                | _, _ => true
+                                end)
+                        | Some c, _ => starts_with (sig_of reg c) h2
+                        end)
+                    && (match store_read (toy_dec reg) reg st2 r name with
+                        | Some x => zlist_eqb x bb && d_ok ro pb
+                        | None => d_fail r ro
+                        end) in
+                  (* property instance: the name holds exactly what writing B alone gives, and B
+                     comes back (JSONL / CSV text of these payloads starts with '{' / a letter:
+                     never a signature) *)
+                  let prop := same && (l2 =? lf) && d_ok ro pb in
+                  ok_verdict agree prop
+              | _, _ => malformed
+              end
+          | JL [t] => if jtag_is "werr" t || jtag_is "panic" t then ok_verdict false false
+                      else malformed
+          | _ => malformed
+          end
+      | _, _, _, _, _, _ => malformed
+      end
+  | _ => malformed
+  end.
+
 Definition check_C10 (kind : string) (input output : J) : verdict :=
   if String.eqb kind "rt" then check_rt input output
   else if String.eqb kind "raw" then check_raw input output
   else if String.eqb kind "proc" then check_proc input output
+  else if String.eqb kind "big" then check_big input output
+  else if String.eqb kind "rewrite" then check_rewrite input output
   else malformed.
